@@ -271,7 +271,11 @@ def _key_checks(d, tree, text, i, net, prv, held):
         raise Violation("derivation:key_expressions-count", f"{text}: {len(exprs)} != {len(keys)}")
     for expr, key in zip(exprs, keys, strict=True):
         want_sec = m.key_sec(key, i, net, held)
-        if expr.sec(i, net, prv) != want_sec:
+        got_sec = expr.sec(i, net, prv)
+        if expr.x_only and key.get("kind") == "wif" and len(want_sec) == 33:
+            # a fixed key written where only an x-only key is written is held as its even-y lift (F23): the x is what the position means
+            want_sec, got_sec = want_sec[1:], got_sec[1:]
+        if got_sec != want_sec:
             cls = "musig" if key["t"] == "musig" else "extended" if key["kind"] in ("xpub", "xprv") else "fixed"
             raise Violation(f"derivation:key-differs:{cls}", f"{text} @ {i}: key {m.key_public_string(key, False)}: {expr.sec(i, net, prv).hex()} != {want_sec.hex()}")
         if key["t"] == "musig":
